@@ -1369,6 +1369,40 @@ func (c *chessCtx) checkC17(o *Obs, fen string, pFen, pPath *position.Position) 
 			c.disc("C17", "illegal-uci-accepted", "illegal-uci", o, fen, map[string]string{"text": text, "parsed": got.StringUci()})
 		}
 	}
+	// near misses of legal moves: a string is accepted exactly when it is the coordinate text of a legal move
+	// (promotion letter in either case); everything else denotes no move
+	legalText := map[string]int{}
+	for _, m := range o.Legal {
+		legalText[strings.ToLower(mvUci(m))] = m
+	}
+	for _, m := range o.Legal {
+		t := mvUci(m)
+		var vars []string
+		if mvPromo(m) != 0 {
+			// (text after a complete move text is ignored by the engine's reader - "d7c8Nq" reads as d7c8N - and is
+			// not counted as "denoting no move")
+			vars = append(vars, t[:4], t[:4]+"k", t[:4]+"p")
+		} else {
+			for _, ch := range "NBRQnbrq" {
+				vars = append(vars, t+string(ch))
+			}
+			vars = append(vars, t[2:4]+t[0:2], t[:3], t[:2])
+		}
+		for _, text := range vars {
+			want, isLegal := legalText[strings.ToLower(text)]
+			var got Move
+			if e := guard(func() { got = mg.GetMoveFromUci(pFen, text) }); e != "" {
+				c.disc("C17", "uci-parse-panic", "panic", o, fen, map[string]string{"text": text, "panic": e})
+				continue
+			}
+			c.res.count("C17.negative_cases", 1)
+			if !isLegal && got != MoveNone {
+				c.disc("C17", "non-move-text-accepted", "uci-near-miss", o, fen, map[string]string{"text": text, "parsed": got.StringUci()})
+			} else if isLegal && (got == MoveNone || specMove(got) != want) {
+				c.disc("C17", "uci-roundtrip", "uci-roundtrip", o, fen, map[string]string{"text": text, "parsed": got.StringUci()})
+			}
+		}
+	}
 	if len(c.res.Samples["C17"]) < 3 && len(o.San) > 0 {
 		e := o.San[len(o.San)/2]
 		c.res.sample("C17", map[string]interface{}{"fen": fen, "move": mvUci(e.M), "san": sanString(e.San, true, "", true)})
